@@ -1767,9 +1767,12 @@ fn perfts(e: &mut Exec, rng: &mut Rng, kv: &Args, positions: &[(String, Pos)]) {
         }
         // two independent counts overlapping in time in one process (own boards, own generators)
         e.exec(&format!("perft2 {} {}", 2.min(maxd), pools[rng.below(pools.len())]));
-        // the split of the root moves over the workers: every small pool size at depth 1
-        for n in 1..=8usize {
-            e.exec(&format!("perft {} {}", 1.min(maxd), n));
+        // the split of the root moves over the workers: every small pool size at depth 1 (each call
+        // constructs one generator per root move, ~0.1 s apiece: on every third position)
+        if rng.chance(1, 3) {
+            for n in 1..=8usize {
+                e.exec(&format!("perft {} {}", 1.min(maxd), n));
+            }
         }
         // a generator that has been used before (other positions, this position)
         let n = pools[rng.below(pools.len())];
